@@ -433,4 +433,65 @@ pub fn run_c04(out: &mut Out, seed: u64, thorough: bool) {
             }
         }
     }
+    // a key press while the program waits in STOP: with the enable bit and IEF set the routine is entered
+    // exactly once after CONTINUE, and the program ends as without the press (the press is a trigger like
+    // any other; the machine not running does not make it disappear)
+    use emulator_2a_lib::machine::State;
+    let stops = if thorough { 60 } else { 12 };
+    for si in 0..stops {
+        // JR MAIN ; ISR (counter at CNT) ; MAIN: LDSP 0xE8 ; [enable] ; INC R0 ; STOP ; INC R1 ; ADD R0,R1 ; spin
+        let mut p: Vec<u8> = vec![0x20, 0x0A];
+        p.extend(&[0x10, 0xFF, CNT, 0x10, 0x44, 0xF0, 0x1F, CNT, 0x14, 0x2C]);
+        p.extend(&[0xFB, 0xE8, 0x40]);
+        let enable = si % 4 != 3;
+        let ei = si % 3 != 2;
+        if enable {
+            p.extend(&[0xFB, 0x01, 0x5F, 0xF9]);
+        }
+        if ei {
+            p.push(0x08);
+        }
+        p.extend(&[0x44, 0x01, 0x45, 0x64]);
+        let spin = p.len() as u8;
+        p.extend(&[0x20, 0xFE]);
+        let load = format!("load 16 255 {}", hexs(&p));
+        // reference: no key press
+        let mut r = Sess::new();
+        r.apply("new");
+        r.apply(&load);
+        let mut guard = 0;
+        while r.m.state() == State::Running && guard < 2000 {
+            r.m.raw_mut().trigger_clock_edge();
+            guard += 1;
+        }
+        r.m.trigger_key_continue();
+        settle(&mut r, spin);
+        let reference = arch_view(&r);
+        for extra in [0u32, 1, 5] {
+            let mut s = Sess::new();
+            run_line(out, &mut s, "new");
+            run_line(out, &mut s, &load);
+            let mut guard = 0;
+            while s.m.state() == State::Running && guard < 2000 {
+                run_line(out, &mut s, "edge");
+                guard += 1;
+            }
+            run_line(out, &mut s, &format!("edges {}", extra));
+            let micr = s.m.bus().is_key_edge_int_enabled();
+            let ie = *s.m.registers().get(RN::R4) & 0x08 != 0;
+            run_line(out, &mut s, "irq");
+            run_line(out, &mut s, "d");
+            run_line(out, &mut s, "cont");
+            run_line(out, &mut s, "edges 200");
+            run_line(out, &mut s, "d");
+            settle(&mut s, spin);
+            let count = s.m.bus().memory()[CNT as usize];
+            let transparent = arch_view(&s) == reference;
+            out.emit(
+                &format!("spec.c04 {} {}", micr as u8, ie as u8),
+                &format!("count={} transparent={}", count, transparent as u8),
+            );
+            out.count("pressed-while-stopped");
+        }
+    }
 }
